@@ -155,7 +155,8 @@ FloorAfter(p) ==
 \* does the logged response r agree with the linearized result?
 Matches(p, r) ==
   CASE p.op = "get"       -> r.nil = p.res.nil /\ (r.nil \/ r.v = p.res.v)
-    [] p.op = "getappend" -> r.nil = p.res.nil /\ (r.nil \/ (r.pre = p.buf /\ r.v = p.res.v))  \* buffer extended by the value
+    [] p.op = "getappend" -> IF r.amb THEN p.res.nil \/ p.res.v = ""      \* empty buffer, empty result: missing key or empty value
+                             ELSE r.nil = p.res.nil /\ (r.nil \/ (r.pre = p.buf /\ r.v = p.res.v))  \* buffer extended by the value
     [] p.op = "has"    -> r.found = p.res
     [] p.op = "count"  -> r.n = p.res
     [] p.op = "items"  -> /\ Len(r.items) = Cardinality(DOMAIN p.res)     \* each live key exactly once
